@@ -518,6 +518,56 @@ fn codec_instances(ctx: &Ctx, len: usize) -> (u64, u64) {
     (all.len() as u64, runs.load(Relaxed))
 }
 
+/// (f) identifiers that differ only in high-order bits / by sign-like patterns, in different
+/// instances on one thread: App 1 stores a code under id X and instantiates it, then App 2 does the
+/// same with id Y (also X = Y); what App 2 reports (address, events, contract info, code info, raw
+/// dump) must be what it reports when it is the only App its thread ever saw. Every ordered pair
+/// of ids runs on a thread of its own.
+fn code_id_instances(ctx: &Ctx) -> u64 {
+    let ids: [u64; 9] = [1, 3, 7, 257, 65_537, 1 << 32, (1 << 32) + 1, (1 << 32) + 3, u64::MAX];
+    fn one(id: u64, label: &str) -> Vec<String> {
+        set_watch(Watch::default());
+        let mut i = fresh();
+        let mut out = vec![];
+        let creator = Addr::unchecked(&i.v);
+        out.push(format!("store {:?}", i.app.store_code_with_id(creator, id, Box::new(Puppet { tag: 1 })).map_err(|_| "Err")));
+        set_script(prog(DOp::Inst));
+        let u = Addr::unchecked(&i.u);
+        match catch(|| i.app.instantiate_contract(id, u.clone(), &NodeMsg { n: 0 }, &[coin(2, "x")], label, Some(i.u.clone()))) {
+            Ok(Ok(a)) => {
+                out.push(format!("address {}", a));
+                out.push(format!("info {:?}", i.app.contract_data(&a).ok()));
+                out.push(format!("dump {:?}", i.app.dump_wasm_raw(&a)));
+                i.contracts.push(a.into_string());
+            }
+            Ok(Err(_)) => out.push("instantiate Err".into()),
+            Err(p) => out.push(format!("PANIC {}", p)),
+        }
+        out.push(format!("code {:?}", i.app.wrap().query_wasm_code_info(id).ok()));
+        out.push(format!("trace {:016x}", hash64(&take_trace(), 3)));
+        out.push(format!("verbatim {:?}", take_reply_errs()));
+        finish_transcript(&i, out)
+    }
+    let mut n = 0u64;
+    let solos: Vec<Vec<String>> = ids.iter().map(|id| { let id = *id; std::thread::spawn(move || one(id, "solo")).join().unwrap() }).collect();
+    for (xi, x) in ids.iter().enumerate() {
+        for (yi, y) in ids.iter().enumerate() {
+            let (x, y) = (*x, *y);
+            let second = std::thread::spawn(move || {
+                let _ = one(x, "solo");
+                one(y, "solo")
+            })
+            .join()
+            .unwrap();
+            n += 1;
+            if second != solos[yi] {
+                ctx.violation("c19:instances-interfere:code-ids", json!({"first_app_code_id": x.to_string(), "second_app_code_id": y.to_string(), "second_app": second, "second_app_alone_on_its_thread": solos[yi], "first_index": xi}));
+            }
+        }
+    }
+    n
+}
+
 pub fn run_c19(ctx: &Ctx) -> i32 {
     crate::tree::puppet::RECORD_ENV.store(true, std::sync::atomic::Ordering::Relaxed);
     let out = explore(ctx, true, false);
@@ -560,6 +610,7 @@ pub fn run_c19(ctx: &Ctx) -> i32 {
         }
     }
     let (codec_seqs, _) = codec_instances(ctx, ctx.tier.pick(2, 3));
+    let code_id_pairs = code_id_instances(ctx);
     // (d) replay validation of an explicit-state exploration: states reached through snapshot
     // restore must equal the states reached by replaying their histories on one App
     let (regcov, _) = crate::reg::explore_registry(ctx, ctx.tier.pick(3, 4));
@@ -573,7 +624,7 @@ pub fn run_c19(ctx: &Ctx) -> i32 {
         "rule": "(a) every history over the operation alphabet up to the length bound, run on two independently built Apps, transcripts (results, events, data, code ids, addresses, checksums, invocation traces, final raw dump) compared; (b) every ordered pair of shorter histories on two Apps in one thread under every interleaving, each transcript compared with its solo transcript; (0) the same with a second, differently configured App (other bonded denomination, unbonding time, rate, commission, balances): solo transcripts of both configurations, and every pair of short histories under every interleaving and both construction orders; (c') histories with caught failures on one thread, directly and from another thread under extra stack frames, in this process (RUST_BACKTRACE=0) and in a second one with RUST_BACKTRACE=1: all four transcripts equal (the transcript includes every Reply verbatim - gas_used and error texts too - and the error texts of malformed and unanswerable queries); (c) digest of everything recomputed in a second OS process with 3 worker threads, which uses the two configurations in the opposite order; distinct_nontrivial = distinct transcripts",
         "exhaustive": true,
         "histories": out.histories, "history_pairs": out.pairs, "interleaved_runs": out.interleaved_runs,
-        "digest": mine, "digest_second_process": other, "environment_histories": eh.len(), "address_codec_call_sequences_each_on_its_own_thread": codec_seqs,
+        "digest": mine, "digest_second_process": other, "environment_histories": eh.len(), "address_codec_call_sequences_each_on_its_own_thread": codec_seqs, "code_id_pairs_in_two_apps_each_on_its_own_thread": code_id_pairs,
         "registry_exploration_replayed": {"states": regcov["states"], "replays": regcov["traces_validated_against_impl"], "mismatches": regcov["replay_mismatches (hidden state; reported by C19)"]},
         "alphabet": ALL.iter().map(|o| format!("{:?}", o)).collect::<Vec<_>>(),
         "caps_hit": [],
